@@ -39,7 +39,8 @@ def make_target(d, kind, seed):
         for i, nm in enumerate(names):
             with open(os.path.join(d, nm), "wb") as f:
                 f.write(img if i % 2 == 0 else container.opaque_payload(seed + i, 50 + i))
-        p = os.path.join(d, {"absent": ["target.tdf", "t\u00e4rget \u20ac.tdf", "name with space .tdf", "~tilde.tdf", "x" * 200 + ".tdf"][seed % 5],
+        p = os.path.join(d, {"absent": ["target.tdf", "t\u00e4rget \u20ac.tdf", "name with space .tdf", "~tilde.tdf", "x" * 200 + ".tdf", "trial[1].tdf", "walk [2].tdf",
+                                        "session[a-c].tdf", "star*.tdf", "what?.tdf", "{brace}.tdf", "100%.tdf", "$HOME.tdf"][seed % 13],
                              "absent-no-suffix": "walk", "absent-other-suffix": "walk.dat", "absent-upper-suffix": "walk.TDF"}[kind])
         # ... and files under the names a writer might use for staging / locking / backing up next to ITS target: they are not the target
         base = os.path.basename(p)
@@ -51,7 +52,8 @@ def make_target(d, kind, seed):
                         f.write(container.opaque_payload(seed + 100 + i, 30 + i))
         return p, None
     # existing targets come under plain and under awkward names too (an existence test that normalises, strips or expands the name would miss them)
-    p = os.path.join(d, ["target.tdf", "t\u00e4rget \u20ac.tdf", "name with space .tdf", "~tilde.tdf", "x" * 200 + ".tdf", "target.tdf", "UPPER.TDF", "trailing-dot.tdf."][seed % 8])
+    p = os.path.join(d, ["target.tdf", "t\u00e4rget \u20ac.tdf", "name with space .tdf", "~tilde.tdf", "x" * 200 + ".tdf", "target.tdf", "UPPER.TDF", "trailing-dot.tdf.",
+                         "trial[1].tdf", "walk [2].tdf", "session[a-c].tdf", "notes[draft].txt", "star*.tdf", "what?.tdf", "[!x].tdf", "{brace}.tdf", "100%.tdf", "$HOME.tdf"][seed % 18])
     if kind == "directory":
         os.mkdir(p)
         return p, "dir"
@@ -237,7 +239,45 @@ def copy_strategy(tier):
                                   "inside_context": st.sampled_from([False, False, True]),
                                   "seed": st.integers(0, 10 ** 6), "source": container.init_images(), "followup": st.lists(op, max_size=5),
                                   "source_via_library": st.booleans(), "call": st.sampled_from(CALL_STYLES), "zero_tail": st.sampled_from([None, None, "small", "one-chunk", "many-chunks"]),
-                                  "source_path": st.sampled_from(["direct", "direct", "symlink-abs", "symlink-rel", "symlink-chain", "hardlink"])})
+                                  "source_path": st.sampled_from(["direct", "direct", "symlink-abs", "symlink-rel", "symlink-chain", "hardlink"]),
+                                  "source_state": st.sampled_from(SOURCE_STATES)})
+
+
+SOURCE_STATES = ["fresh", "fresh", "armed", "read-before", "written-before", "armed-after-read", "armed-twice", "left-by-exception"]
+
+
+def prepare_source(src, state):
+    """what the source OBJECT went through before copy() is called on it outside any context: nothing, allow_write() without a context yet
+    (tdf = Tdf(p).allow_write(); backup; with tdf: ...), contexts entered and left"""
+    if state in ("read-before", "armed-after-read"):
+        with src:
+            len(src)
+    if state == "written-before":
+        with src.allow_write():
+            pass
+    if state == "left-by-exception":
+        try:
+            with src.allow_write():
+                raise KeyError("the caller's own")
+        except KeyError:
+            pass
+    if state in ("armed", "armed-after-read", "armed-twice"):
+        src.allow_write()
+    if state == "armed-twice":
+        src.allow_write()
+
+
+def enum_copy_states(tier):
+    src = {"source": "image", "N": 4, "blocks": [{"kind": "spec", "spec": {"t": "events", "format": 1, "startTime": 0, "events": [{"label": "e", "type": 0, "values": [0x3F800000]}]},
+                                                  "comment": "c", "cdate": 5, "mdate": 6}], "version": 1}
+    for state in sorted(set(SOURCE_STATES)):
+        for target in ABSENT_KINDS + TARGETS[1:]:
+            for path in ("str", "Path", "relative-plain"):
+                for seed in range(13 if target in ABSENT_KINDS else 18):
+                    if seed >= 3 and (path != "str" or state not in ("fresh", "armed")):
+                        continue
+                    yield {"target": target, "path": path, "inside_context": False, "seed": seed, "source": src, "followup": [], "source_via_library": False,
+                           "call": "keyword" if seed % 2 else "positional", "zero_tail": None, "source_path": "direct", "source_state": state}
 
 
 def run_copy(ctx, case):
@@ -333,6 +373,8 @@ def run_copy(ctx, case):
                     ctx.fail("copy/returned-object-reads-another-file", f"the object returned by copy() (taken inside an open context of the source, which was then edited "
                                                                        f"further) lists block types {wrong_reader[0]}; its own file holds {wrong_reader[1]}")
             else:
+                prepare_source(src, case.get("source_state", "fresh"))
+                ctx.label("source-object:" + case.get("source_state", "fresh"))
                 try:
                     cp = call_copy(src, as_path(p, case["path"]), case.get("call", "positional"))
                     exc = None
@@ -575,6 +617,15 @@ SUBS = [
         rule="Tdf.new against every target state x path kind; parse of created files; bytes of existing targets"),
     Sub("copy", run_copy, strategy=copy_strategy, budget=(200, 5000), shards=(4, 16),
         rule="Tdf.copy of generated sources against every target state; byte identity; independence under follow-up mutations of either file"),
+    Sub("new-every-name", run_new, kind="enum", shards=(2, 4),
+        enumerate=lambda tier: ({"target": t, "path": p, "seed": s, "call": "keyword" if s % 2 else "positional"} for t in TARGETS + ABSENT_KINDS[1:] for p in ("str", "Path", "relative-plain")
+                                for s in range(18 if t not in ABSENT_KINDS else 13) if t in ABSENT_KINDS or p != "relative-plain" or s < 3),
+        rule="Tdf.new against every target state x every awkward target name (brackets, wildcards, braces, %, $, blanks, non-ASCII, 200 characters, upper-case suffix, "
+             "trailing dot) x path kind; finite, enumerated", nontrivial_required=False),
+    Sub("copy-source-states", run_copy, kind="enum", enumerate=enum_copy_states, shards=(4, 8),
+        rule="Tdf.copy outside any context from a source OBJECT in each of 7 states (fresh, allow_write() called but no context yet, a read / write context entered and left, "
+             "left through an exception, armed after a read, armed twice) x every target state (4 absent kinds, 6 existing kinds) x path kind x every awkward target name "
+             "(brackets, wildcards, braces, %, $, blanks, non-ASCII, 200 characters); finite, enumerated", nontrivial_required=False),
     Sub("invalid-input", run_invalid, strategy=invalid_strategy, budget=(200, 4000), shards=(1, 8),
         rule="missing path, empty / short / random / partial-signature / bit-flipped-signature files: every reader must refuse - through a fresh object, and through an "
              "object that had already read a valid file at the same path before it was replaced or deleted"),
